@@ -182,7 +182,9 @@ func (l *lock) Lock(ctx context.Context, key string, ttl time.Duration) (lockID 
 		// (race window: enqueue closed our ready right after we entered
 		// select), remove() still does the right thing — it wakes the
 		// next waiter when removing the head.
-		q.remove(lockID)
+		// release, not just remove: if we were the last caller the retired queue
+		// has to leave lock.queues as well, or the key keeps an entry for good.
+		l.release(key, q, lockID)
 		return "", errors.New("lock timeout")
 	}
 }
